@@ -127,6 +127,10 @@ struct Sim {
     rejected: Arc<Mutex<Vec<ProposalShortId>>>,
     taint: Taint,
     f2_fixed: bool,
+    f3_fixed: bool,
+    mid_fixed: bool,
+    /// the F3 pattern occurred (even if repaired: the repair cannot enforce the ancestor limit on the children)
+    f3_seen: bool,
     reported: bool,
     dead: bool,
     // statistics of the case
@@ -224,6 +228,9 @@ impl Sim {
             rejected,
             taint: Taint::None,
             f2_fixed: false,
+            f3_fixed: false,
+            mid_fixed: false,
+            f3_seen: false,
             reported: false,
             dead: false,
             max_pool: 0,
@@ -494,7 +501,7 @@ impl Sim {
                 self.fail(out, &c, format!("after {after}: tx {id} ancestors_(count,size,cycles,fee)={:?} recomputed={:?}", a, wa));
             }
             if wa[0] > self.cfg.max_anc || a[0] > self.cfg.max_anc {
-                let c = tainted("ancestors-limit-exceeded", self.taint);
+                let c = if self.taint == Taint::None && self.f3_seen { "ancestors-limit-exceeded-parent-added-after-children".to_string() } else { tainted("ancestors-limit-exceeded", self.taint) };
                 self.fail(out, &c, format!("after {after}: tx {id} ancestors_count={} recomputed={} max={}", a[0], wa[0], self.cfg.max_anc));
             }
         }
@@ -503,7 +510,7 @@ impl Sim {
     fn set_taint(&mut self, t: Taint) {
         // `f2-fixed` (extra harness argument): remove_entry_and_descendants is repaired in /repo, the F2
         // pattern no longer excuses anything
-        if t == Taint::F2 && self.f2_fixed {
+        if (t == Taint::F2 && self.f2_fixed) || (t == Taint::F3 && self.f3_fixed) || (t == Taint::Mid && self.mid_fixed) {
             return;
         }
         if self.taint == Taint::None {
@@ -534,6 +541,7 @@ impl Sim {
     fn taint_add(&mut self, before: &View, after: &View) {
         for (id, (_, cs)) in &after.links {
             if !before.entries.contains_key(id) && !cs.is_empty() {
+                self.f3_seen = true;
                 self.set_taint(Taint::F3);
             }
         }
@@ -956,15 +964,23 @@ impl<'a> Gen<'a> {
     }
 }
 
-fn run_case(out: &mut Out, rng: &mut Rng, world: &World, n_ops: usize, clean: bool, f2_fixed: bool) {
-    let max_anc = *rng.pick(&[2u64, 3, 3, 4, 5, 25]);
-    let max_size = if clean && rng.chance(1, 2) { 1_000_000 } else { *rng.pick(&[600u64, 900, 1500, 2500, 1_000_000]) };
-    let min_rbf = *rng.pick(&[1500u64, 1500, 2000, 1000]);
+fn run_case(out: &mut Out, rng: &mut Rng, world: &World, n_ops: usize, clean: bool, f2_fixed: (bool, bool, bool), big: bool) -> usize {
+    let mut max_anc = *rng.pick(&[2u64, 3, 3, 4, 5, 25]);
+    let mut max_size = if clean && rng.chance(1, 2) { 1_000_000 } else { *rng.pick(&[600u64, 900, 1500, 2500, 1_000_000]) };
+    let mut min_rbf = *rng.pick(&[1500u64, 1500, 2000, 1000]);
+    if big {
+        // large pools: 30+ entries, chains growing up to the ancestor limit, RBF on, size limit near 35-45 entries
+        max_anc = *rng.pick(&[6u64, 10, 25]);
+        max_size = *rng.pick(&[1_000_000u64, 11_000, 9_000]);
+        min_rbf = 1500;
+    }
     let cfg = Cfg { max_anc, max_size, min_fee_rate: 1000, min_rbf_rate: min_rbf };
     out.begin_case(&format!("anc={max_anc} size={max_size} rbf={min_rbf} clean={}", clean as u8));
     out.op(&format!("cfg {} {} 1000 {} {} {}", max_anc, max_size, min_rbf, HOUR_MS, set_str(0..N_ROOTS)), "ok");
     let mut sim = Sim::new(world, cfg);
-    sim.f2_fixed = f2_fixed;
+    sim.f2_fixed = f2_fixed.0;
+    sim.f3_fixed = f2_fixed.1;
+    sim.mid_fixed = f2_fixed.2;
     let mut g = Gen { rng, next_id: 10, ts: 1000, outs: vec![], clean };
     for r in 0..N_ROOTS {
         for i in 0..ROOT_OUTS {
@@ -979,7 +995,10 @@ fn run_case(out: &mut Out, rng: &mut Rng, world: &World, n_ops: usize, clean: bo
         }
         let v = sim.view();
         let pooled: Vec<u64> = v.entries.keys().copied().collect();
-        let k = g.rng.below(100);
+        let mut k = g.rng.below(100);
+        if big && pooled.len() < 34 && g.rng.chance(3, 4) {
+            k = 0; // grow
+        }
         match k {
             0..=34 => {
                 // submit / add a fresh transaction
@@ -1120,9 +1139,13 @@ fn run_case(out: &mut Out, rng: &mut Rng, world: &World, n_ops: usize, clean: bo
         out.nontrivial(format!("{:?} max_pool={} taint={:?}", sim.kinds, sim.max_pool, sim.taint));
     }
     out.count(&format!("case-taint-{:?}", sim.taint));
+    if sim.max_pool >= 30 {
+        out.count("case-pool-30-or-more");
+    }
+    sim.max_pool
 }
 
-fn replay_case(out: &mut Out, world: &World, ops: &[String], f2_fixed: bool) {
+fn replay_case(out: &mut Out, world: &World, ops: &[String], f2_fixed: (bool, bool, bool)) {
     let mut sim: Option<Sim> = None;
     for line in ops {
         let t: Vec<&str> = line.split_whitespace().collect();
@@ -1136,7 +1159,9 @@ fn replay_case(out: &mut Out, world: &World, ops: &[String], f2_fixed: bool) {
                 assert_eq!(t[3], "1000");
                 out.op(line, "ok");
                 let mut s = Sim::new(world, cfg);
-                s.f2_fixed = f2_fixed;
+                s.f2_fixed = f2_fixed.0;
+                s.f3_fixed = f2_fixed.1;
+                s.mid_fixed = f2_fixed.2;
                 sim = Some(s);
             }
             "dump" => {} // re-emitted by exec after every state-changing op
@@ -1152,21 +1177,38 @@ pub fn run(opts: &Opts) {
     let base = PathBuf::from(format!("/dev/shm/verif-c11-{}", std::process::id()));
     let world = World::new(&base);
     // add_entry panics are caught and reported as an answer; keep stderr quiet
-    std::panic::set_hook(Box::new(|_| {}));
+    std::panic::set_hook(Box::new(|info| {
+        let at = info.location().map(|l| format!("{}:{}", l.file(), l.line())).unwrap_or_default();
+        // the expected, caught panic of add_entry stays silent; anything else is a harness failure worth one line
+        if !at.contains("pool_map.rs") {
+            eprintln!("c11 harness panic at {at}: {}", info.payload().downcast_ref::<String>().cloned().or_else(|| info.payload().downcast_ref::<&str>().map(|s| s.to_string())).unwrap_or_default());
+        }
+    }));
     let mut out = Out::new(&opts.out);
-    let f2_fixed = opts.extra.iter().any(|a| a == "f2-fixed");
+    // which repairs are in /repo: the corresponding pattern no longer excuses a stale aggregate
+    let has = |k: &str| opts.extra.iter().any(|a| a == k);
+    let f2_fixed = (has("f2-fixed"), has("f3-fixed"), has("mid-fixed"));
     if let Some(rp) = &opts.replay {
         let ops = read_replay_ops(rp);
         replay_case(&mut out, &world, &ops, f2_fixed);
     } else {
         let mut rng = Rng::new(opts.seed);
         let cases = (if opts.thorough() { 6000 } else { 500 }) * opts.scale;
+        let mut max_pool_seen = 0usize;
         for c in 0..cases {
             let n_ops = 8 + rng.below(30) as usize;
             // 60% of the cases avoid the three patterns under which the code is known not to maintain the aggregates
             let clean = c % 5 < 3;
-            run_case(&mut out, &mut rng, &world, n_ops, clean, f2_fixed);
+            let m = run_case(&mut out, &mut rng, &world, n_ops, clean, f2_fixed, false);
+            max_pool_seen = max_pool_seen.max(m);
         }
+        // a few long cases with large pools (ancestor-limit boundaries on long chains, RBF on)
+        let big_cases = (if opts.thorough() { 24 } else { 2 }) * opts.scale;
+        for c in 0..big_cases {
+            let m = run_case(&mut out, &mut rng, &world, 140, c % 2 == 0, f2_fixed, true);
+            max_pool_seen = max_pool_seen.max(m);
+        }
+        out.extra.insert("max_pool_seen".into(), (max_pool_seen as u64).into());
     }
     out.finish("pool held >= 4 transactions at some point and >= 2 distinct removal/eviction/replacement paths ran (evict-in-add, rej-anc, commit-conflict, hdr, limit, expire, detach, rbf-replace, rbf-reject)");
     drop(world.snapshot);
